@@ -16,6 +16,11 @@ type (
 	// denotes by it: escapes beyond the documented \n \t \\ \" (\x41, \u00e9, \a ...) that both transpilers hand
 	// through to Go - used where two translations are compared with each other (C17)
 	StrSrc  struct{ Src, V string }
+	// IntSrc: an integer literal given by its source spelling (leading zeros: 010 is ten) and its value
+	IntSrc struct {
+		Src string
+		V   int64
+	}
 	BoolLit struct{ V bool }
 	UnitLit struct{}
 	Var     struct{ Name string }
